@@ -29,6 +29,11 @@ type longScenario struct {
 	SlowLine int  `json:"slow_line"`    // 0-based index (of 3 JOIN lines) whose handler is the slow one
 	SlowH    int  `json:"slow_handler"` // which of the two handlers per line sleeps
 	Internal bool `json:"slow_on_welcome"` // additionally the CONNECTED handler takes SleepMS/2 (it runs inside the internal phase of 001)
+	// TailEOF: a fourth JOIN line arrives WITHOUT its line terminator and the server hangs up right behind
+	// it, all while the slow handler is still at work. Whether that last fragment is dropped or handled is
+	// open; if it is handled, then as a line like any other: after the earlier ones, not beside them.
+	TailEOF bool `json:"tail_eof,omitempty"`
+	TailCR  bool `json:"tail_cr,omitempty"` // the fragment ends in a bare CR
 }
 
 type longVerdict struct {
@@ -40,6 +45,9 @@ func runLong(sc *longScenario) (lv longVerdict, err *Violation) {
 	tc := newTestClient(cliOpts{Flood: true, Tracking: true, Nick: "me"})
 	defer tc.shutdown()
 	nicks := []string{"ua", "ub", "uc"}
+	if sc.TailEOF {
+		nicks = append(nicks, "ud")
+	}
 	var mu sync.Mutex
 	var log []string
 	open := map[string]int{} // nick -> handlers currently inside
@@ -89,18 +97,24 @@ func runLong(sc *longScenario) (lv longVerdict, err *Violation) {
 				mu.Unlock()
 			}
 			check := func(when string) {
-				if idx+1 < len(nicks) && present(c, nicks[idx+1]) {
-					mu.Lock()
-					note(&lv.tracker, "%s handler %d for line %d (%s JOIN #c, running for %d ms) the tracker already reflects the next line (%s is on #c)", when, hi, idx+1, l.Nick, sc.SleepMS, nicks[idx+1])
-					mu.Unlock()
+				for j := idx + 1; j < len(nicks); j++ {
+					if present(c, nicks[j]) {
+						mu.Lock()
+						note(&lv.tracker, "%s handler %d for line %d (%s JOIN #c, running for %d ms) the tracker already reflects the later line %d (%s is on #c)", when, hi, idx+1, l.Nick, sc.SleepMS, j+1, nicks[j])
+						mu.Unlock()
+					}
 				}
 			}
 			check("at the start of")
 			if idx == sc.SlowLine && hi == sc.SlowH {
 				// look again every 100 ms while "working"
 				deadline := time.Now().Add(time.Duration(sc.SleepMS) * time.Millisecond)
+				step := 100 * time.Millisecond
+				if sc.SleepMS < 1000 {
+					step = time.Duration(sc.SleepMS) * time.Millisecond / 10
+				}
 				for time.Now().Before(deadline) {
-					time.Sleep(100 * time.Millisecond)
+					time.Sleep(step)
 					check("during")
 				}
 			}
@@ -127,6 +141,34 @@ func runLong(sc *longScenario) (lv longVerdict, err *Violation) {
 	wait := time.Duration(sc.SleepMS)*time.Millisecond + stallTimeout()
 	if !tc.syncIn(wait) {
 		return lv, violationf("C03", "long-handler leg: warm-up not processed")
+	}
+	if sc.TailEOF {
+		disc := make(chan struct{}, 2)
+		tc.C.HandleFunc(client.DISCONNECTED, func(*client.Conn, *client.Line) { disc <- struct{}{} })
+		tail := ":ud!i@h JOIN #c"
+		if sc.TailCR {
+			tail += "\r"
+		}
+		conn.Send(":ua!i@h JOIN #c\r\n:ub!i@h JOIN #c\r\n:uc!i@h JOIN #c\r\n" + tail)
+		// the slow handler is at work (or about to be) when the server goes away
+		waitCond(wait, func() bool { mu.Lock(); defer mu.Unlock(); return open[nicks[sc.SlowLine]] > 0 || done[nicks[sc.SlowLine]] > 0 })
+		conn.EOF()
+		conn.FailWrites(fmt.Errorf("injected: broken pipe"))
+		select {
+		case <-disc:
+		case <-time.After(wait):
+			_, dump := goircGoroutines()
+			return lv, &Violation{Property: "C03", Msg: "unterminated-last-line leg: DISCONNECTED never delivered after the server hung up", Detail: dump}
+		}
+		waitCond(wait, func() bool { mu.Lock(); defer mu.Unlock(); n := 0; for _, v := range open { n += v }; return n == 0 && dispatchFrames() == 0 })
+		mu.Lock()
+		defer mu.Unlock()
+		for _, n := range nicks {
+			if done[n] != 0 && done[n] != 2 {
+				note(&lv.order, "line for %s: %d of its 2 handlers ran (log %v)", n, done[n], log)
+			}
+		}
+		return lv, nil
 	}
 	conn.Send(":ua!i@h JOIN #c\r\n:ub!i@h JOIN #c\r\n:uc!i@h JOIN #c\r\n")
 	if !tc.syncIn(wait) {
@@ -204,6 +246,33 @@ func longLeg(t *testing.T, prop string) {
 		}
 	})
 }
+
+// tailLeg: many short scenarios of the unterminated-last-line shape, one at a time.
+func tailLeg(t *testing.T, prop string) {
+	col := evid.New(prop, "unterminated-last-line leg: tracked client on #c, three JOIN lines and a fourth without its terminator (optionally ending in a bare CR) in one burst, the server hanging up while a handler of line 1..3 is still at work for 20..300 ms; oracle ("+prop+"): "+map[string]string{"C03": "whatever is handled is handled in wire order, a line's handlers starting only after every earlier line's handlers returned, both handlers of a line or neither", "C05": "while a handler runs the tracker shows its own line's user on #c and none of the later lines' users"}[prop]+"; non-trivial = every scenario; distinct by scenario")
+	defer finish(t, col)
+	rapid.Check(t, func(t *rapid.T) {
+		sc := &longScenario{SleepMS: rapid.SampledFrom([]int{20, 60, 150, 300}).Draw(t, "sleep_ms"), SlowLine: rapid.IntRange(0, 2).Draw(t, "slow_line"), SlowH: rapid.IntRange(0, 1).Draw(t, "slow_handler"), TailEOF: true, TailCR: rapid.Bool().Draw(t, "tail_cr")}
+		lv, v := runLong(sc)
+		b, _ := json.Marshal(sc)
+		col.Case(string(b), true, fmt.Sprintf("slow_line=%d", sc.SlowLine), fmt.Sprintf("tail_cr=%v", sc.TailCR))
+		col.Sample(sc)
+		if v == nil && prop == "C03" && lv.order != "" {
+			v = violationf("C03", "unterminated-last-line leg: %s", lv.order)
+		}
+		if v == nil && prop == "C05" && lv.tracker != "" {
+			v = violationf("C05", "unterminated-last-line leg: %s", lv.tracker)
+		}
+		if v != nil && v.Property == prop {
+			failRapid(t, "Test"+prop+"_TailEOF", v, sc)
+		}
+	})
+}
+
+func TestC03_TailEOF(t *testing.T) { tailLeg(t, "C03") }
+func TestC05_TailEOF(t *testing.T) { tailLeg(t, "C05") }
+func TestC03_TailEOF_Replay(t *testing.T) { longReplay(t, "C03") }
+func TestC05_TailEOF_Replay(t *testing.T) { longReplay(t, "C05") }
 
 func TestC03_LongHandler(t *testing.T) { longLeg(t, "C03") }
 func TestC05_LongHandler(t *testing.T) { longLeg(t, "C05") }
